@@ -22,11 +22,13 @@ def enum_members(prog, modname, clsname):
 def eval_list(prog, mod, node, scope, enum_name):
     """evaluate a class/module level list expression made of list literals, + concatenation, names of other lists,
     None and <Enum>.<MEMBER> / resolved function names  ->  python list of member names / None / dotted callee names"""
-    if isinstance(node, ast.List):
+    if isinstance(node, (ast.List, ast.Tuple)):
         out = []
         for e in node.elts:
             out.append(eval_item(prog, mod, e, enum_name))
         return out
+    if isinstance(node, ast.Call) and isinstance(node.func, ast.Name) and node.func.id in ('list', 'tuple') and len(node.args) == 1 and not node.keywords:
+        return eval_list(prog, mod, node.args[0], scope, enum_name)
     if isinstance(node, ast.BinOp) and isinstance(node.op, ast.Add):
         return eval_list(prog, mod, node.left, scope, enum_name) + eval_list(prog, mod, node.right, scope, enum_name)
     if isinstance(node, ast.Name) and node.id in scope:
